@@ -224,6 +224,29 @@ def main(tier, seed, replay=None):
             stats["advanced_off_cases"] += 1
             if off[0] != "ok" or any(str(r[2]).endswith("ExpressionConstraintComponent") for r in off[2]):
                 diffs.append({"what": "advanced=False still evaluates sh:expression", "shapes_ttl": ttl})
+            # the same expression on a PROPERTY shape: it is evaluated for each value node (sh:this = the value node)
+            vpath = rng.choice([EX.k, EX.k, EX.n, EX.m])
+            ttl_p = PFX + fn_ttl + "ex:S a sh:PropertyShape ; sh:path %s ; sh:expression %s .\n" % (vpath.n3(), expr_ttl(e))
+            sgp = rdflib.Graph().parse(data=ttl_p, format="turtle")
+            for fnode in foci:
+                sgp.add((EX.S, SH.targetNode, fnode))
+            op_ = S.run_validate(data, sgp, advanced=True)
+            stats["expression_on_property_shape_cases"] = stats.get("expression_on_property_shape_cases", 0) + 1
+            table_p = {}
+            vals = sorted({v_ for f_ in foci for v_ in data.objects(f_, vpath)}, key=lambda t: t.n3())
+            bad_vals = {v_ for v_ in vals if oracle_eval(data, e, v_, table_p) != {Literal(True)}}
+            exp_pairs = sorted((f_.n3(), v_.n3()) for f_ in foci for v_ in data.objects(f_, vpath) if v_ in bad_vals)
+            if op_[0] != "ok":
+                diffs.append({"what": "validate(advanced=True) with sh:expression on a property shape failed: %r" % (op_[:3],), "shapes_ttl": ttl_p, "data": sorted(data.serialize(format="nt").split("\n"))})
+            else:
+                got_pairs = sorted({(r[0].n3(), r[1].n3() if r[1] is not None else None) for r in op_[2] if str(r[2]).endswith("ExpressionConstraintComponent")})
+                stats["reported"] += len(got_pairs)
+                if got_pairs != exp_pairs:
+                    diffs.append({"what": "sh:expression on a property shape reports other (focus, value) pairs than direct evaluation of the declared queries for each value node",
+                                  "shapes_ttl": ttl_p, "data": sorted(data.serialize(format="nt").split("\n")), "reported": got_pairs, "expected": exp_pairs})
+                got_vals = sorted({r[1] for r in op_[2] if str(r[2]).endswith("ExpressionConstraintComponent") and r[1] is not None}, key=lambda t: t.n3())
+                bodies.append("check_expression %s %s (%s) (%s) %s %s" % (table_coq(I, table_p), I.graph(data), I.term(Literal(True)), expr_coq(I, e), I.terms(vals), I.terms(got_vals)))
+                meta.append({"kind": "expression on a property shape", "shapes_ttl": ttl_p, "reported": [x.n3() for x in got_vals]})
         elif kindsel < 0.7:
             # ---- (c) custom targets
             sels = rng.sample(TARGET_SELECTS, rng.randint(1, 2))
@@ -324,7 +347,7 @@ def main(tier, seed, replay=None):
         "evaluations": len(bodies) + stats["expression_cases"] + stats["target_cases"] + 2 * stats["sparql_call_cases"] + stats["advanced_off_cases"],
         "distinct_nontrivial": stats["expression_cases"] + stats["target_cases"] + stats["sparql_call_cases"],
         "rule": "case = 1-3 SPARQL functions (1-3 parameters named so that name order and sh:order disagree; all / none / some with sh:order; SELECT arithmetic that is not commutative in its parameters, ASK comparisons, look-ups that may have no solution) + one of: "
-                "(b) sh:expression over sh:this / constants / paths / nested function calls on IRI and blank-node focus nodes: reported nodes = direct evaluation and = Coq model with the function table; "
+                "(b) sh:expression over sh:this / constants / paths / nested function calls on IRI and blank-node focus nodes, on node shapes and on property shapes (evaluated per value node): reported nodes = direct evaluation and = Coq model with the function table; "
                 "(c) sh:target with SPARQLTarget(s) and a parameterised SPARQLTargetType: reported focus nodes = core targets + ?this solutions (advanced on), = core targets (advanced off), = model; "
                 "(d) the function called from a sh:sparql constraint and from a TripleRule object expression: results / derived triples = the declared query run directly; advanced=False ignores functions, rules, targets and expressions; "
                 "(a) for every function the loader's parameter order = model",
